@@ -518,4 +518,46 @@ theorem setBitsLoop_ok (src ow or len d0 : Nat) :
       exact (hcont hz).1 i h1 (by omega)
 
 
+/-! ### counting -/
+
+def cnt (g : Nat → Bool) (m : Nat) : Nat := ((List.range m).filter g).length
+
+theorem cnt_add (g : Nat → Bool) (a b : Nat) :
+    cnt g (a + b) = cnt g a + cnt (fun j => g (a + j)) b := by
+  unfold cnt
+  rw [List.range_add, List.filter_append, List.length_append, List.filter_map, List.length_map]
+  rfl
+
+theorem cnt_split (g : Nat → Bool) (a b : Nat) (h : a ≤ b) :
+    cnt g b = cnt g a + cnt (fun j => g (a + j)) (b - a) := by
+  have : b = a + (b - a) := by omega
+  conv => lhs; rw [this]
+  exact cnt_add g a (b - a)
+
+theorem cnt_congr (g h : Nat → Bool) (m : Nat) (e : ∀ i, i < m → g i = h i) : cnt g m = cnt h m := by
+  unfold cnt
+  congr 1
+  apply List.filter_congr
+  intro x hx
+  exact e x (List.mem_range.mp hx)
+
+theorem cnt_false (m : Nat) : cnt (fun _ => false) m = 0 := by
+  unfold cnt; simp
+
+theorem popcount_eq_cnt (w : Nat) : popcount w 64 = cnt (fun j => w.testBit j) 64 := rfl
+
+/-- sum of popcounts of the first `n` full chunks -/
+theorem sum_full (g : Nat → Bool) (f : Nat → Nat)
+    (hf : ∀ k j, j < 64 → (f k).testBit j = g (64 * k + j)) (n : Nat) :
+    (((List.range n).map f).map (fun w => popcount w 64)).sum = cnt g (64 * n) := by
+  induction n with
+  | zero => simp [cnt]
+  | succ n ih =>
+    rw [List.range_succ, List.map_append, List.map_append, List.sum_append, ih]
+    simp only [List.map_cons, List.map_nil, List.sum_cons, List.sum_nil, Nat.add_zero]
+    rw [show 64 * (n + 1) = 64 * n + 64 by omega, cnt_add, popcount_eq_cnt]
+    congr 1
+    exact cnt_congr _ _ _ (fun j hj => hf n j hj)
+
+
 end ArrowModel.C19
